@@ -496,7 +496,7 @@ type writerPlan struct {
 
 // planWriter draws a writer behaviour; fault = -1 for a healthy writer.
 func planWriter(rng *ev.Rand, fault int) writerPlan {
-	p := writerPlan{failAt: fault, kind: rng.Intn(5)}
+	p := writerPlan{failAt: fault, kind: rng.Intn(nWriterKinds)}
 	if fault >= 0 {
 		p.kind = 1 + rng.Intn(3) // the fault must be seen by golib's own Write call: no buffering layer
 	}
@@ -505,6 +505,8 @@ func planWriter(rng *ev.Rand, fault int) writerPlan {
 		p.piece = rng.Pick(1, 2, 3, 7, 16)
 	case 3:
 		p.bufSize = rng.Pick(1, 2, 7, 15, 16, 17, 33, 512)
+	case 5, 6, 7, 8:
+		p.piece = rng.Pick(0, 1, 5, 16, 100) // bytes the destination already holds
 	}
 	if fault >= 0 {
 		p.sticky = rng.Bool()
@@ -523,8 +525,16 @@ func (p writerPlan) String() string {
 		d = fmt.Sprintf("writer consuming in pieces of %d", p.piece)
 	case 3:
 		d = fmt.Sprintf("writer with ReaderFrom, buffer %d", p.bufSize)
-	default:
+	case 4:
 		d = "bufio.Writer size 16 over plain writer"
+	case 5:
+		d = fmt.Sprintf("raw *bytes.Buffer that already holds %d bytes", p.piece)
+	case 6:
+		d = fmt.Sprintf("raw *os.File positioned behind %d bytes written earlier", p.piece)
+	case 7:
+		d = fmt.Sprintf("raw *bufio.Writer (size 64) with %d bytes buffered earlier", p.piece)
+	default:
+		d = fmt.Sprintf("raw *strings.Builder that already holds %d bytes", p.piece)
 	}
 	if p.failAt >= 0 {
 		d += fmt.Sprintf(" FAIL at byte offset %d (sticky=%v)", p.failAt, p.sticky)
@@ -537,6 +547,11 @@ type sink struct {
 	buf   *bytes.Buffer
 	sw    *swriter
 	flush func() error
+	// raw standard-library destinations (kinds 5..8): the bytes they held before the call
+	// must still be in front of what the call wrote
+	pre        []byte
+	read       func() ([]byte, error)
+	prefixGone bool
 }
 
 func (p writerPlan) build(expect int) *sink {
@@ -554,17 +569,83 @@ func (p writerPlan) build(expect int) *sink {
 	case 3:
 		s.sw = mk()
 		s.w = rfWriter{swriter: s.sw, bufSize: p.bufSize}
-	default:
+	case 4:
 		s.sw = mk()
 		bw := bufio.NewWriterSize(struct{ io.Writer }{s.sw}, 16)
 		s.w = struct{ io.Writer }{bw}
 		s.flush = bw.Flush
+	case 5:
+		s.pre = preBytes(p.piece)
+		bb := bytes.NewBuffer(append([]byte{}, s.pre...))
+		s.w = bb
+		s.read = func() ([]byte, error) { return bb.Bytes(), nil }
+	case 6:
+		s.pre = preBytes(p.piece)
+		f, err := os.CreateTemp(os.Getenv("VERIF_SCRATCH"), "c09-out-*")
+		if err != nil {
+			panic("harness: " + err.Error())
+		}
+		os.Remove(f.Name())
+		if _, err := f.Write(s.pre); err != nil {
+			panic("harness: " + err.Error())
+		}
+		s.w = f
+		s.read = func() ([]byte, error) {
+			st, err := f.Stat()
+			if err != nil {
+				return nil, err
+			}
+			b := make([]byte, st.Size())
+			_, err = f.ReadAt(b, 0)
+			if err == io.EOF {
+				err = nil
+			}
+			return b, err
+		}
+	case 7:
+		s.pre = preBytes(p.piece)
+		s.sw = mk()
+		bw := bufio.NewWriterSize(s.sw, 64)
+		bw.Write(s.pre)
+		s.w = bw
+		s.read = func() ([]byte, error) {
+			err := bw.Flush()
+			return s.sw.buf, err
+		}
+	default:
+		s.pre = preBytes(p.piece)
+		sb := &strings.Builder{}
+		sb.Write(s.pre)
+		s.w = sb
+		s.read = func() ([]byte, error) { return []byte(sb.String()), nil }
 	}
 	return s
 }
 
+func preBytes(n int) []byte {
+	b := make([]byte, n)
+	for i := range b {
+		b[i] = byte(0xA0 + i%7)
+	}
+	return b
+}
+
 // bytes returns everything written (after flushing a buffering layer).
 func (s *sink) bytes() ([]byte, error) {
+	if s.read != nil {
+		all, err := s.read()
+		if err != nil {
+			return nil, err
+		}
+		if len(all) < len(s.pre) || !bytes.Equal(all[:len(s.pre)], s.pre) {
+			// The statement is about the bytes a call writes; what becomes of bytes the
+			// destination held before (a destination reset or rewound by the callee) is
+			// not settled by it: the whole content is then judged as the output.
+			s.prefixGone = true
+			return all, nil
+		}
+		return all[len(s.pre):], nil
+	}
 	var err error
 	if s.flush != nil {
 		err = s.flush()
